@@ -178,6 +178,18 @@ def inject_fault(ws: typing.Any, fault: typing.Any) -> typing.Tuple[typing.Any, 
         j = cands[fault["other"] % len(cands)]
         add_line(c, "@assert %s.%d.%d.ID == %d" % (defs[j]["short"], defs[j]["version"][0], defs[j]["version"][1], j))
         return ws, {"carriers": {c}, "kind": kind, "namesake": j}
+    if kind == "missing-qualified-namesake":
+        # a dotted name is a full name: `inner.Q.1.0` written inside <root>.<ns> does not mean <root>.<ns>.inner.Q.1.0, even though
+        # that definition exists (and `inner` is not the name of any root namespace)
+        if carrier["service"]:
+            return ws, None
+        here = (ws["roots"][carrier["root"]]["name"], tuple(carrier["ns"]) + ("inner",))
+        if any((ws["roots"][x["root"]]["name"], tuple(x["ns"])) == here for x in defs):
+            return ws, None
+        defs.append({"root": carrier["root"], "ns": list(carrier["ns"]) + ["inner"], "short": "Q", "version": [1, 0], "port": None, "service": False, "sealed": True,
+                     "size": 1, "deprecated": False, "legacy": False, "refs": []})
+        add_line(c, "@assert inner.Q.1.0.ID == %d" % (len(defs) - 1))
+        return ws, {"carriers": {c}, "kind": kind, "namesake": len(defs) - 1}
     if kind == "missing-version":
         j = fault["other"] % n
         t = defs[j]
@@ -470,7 +482,7 @@ def parts(ctx: Ctx) -> typing.List[Part]:
     resolve_cases = st.fixed_dictionaries({"ws": ws, "targets": st.lists(st.integers(0, 30), min_size=1, max_size=4)})
     fault = st.fixed_dictionaries(
         {
-            "kind": st.sampled_from(["missing-name", "missing-version", "missing-relative-namesake", "self", "wrong-case", "cycle", "cycle", "duplicate-in-second-root", "self-with-twin", "cycle-with-twin"]),
+            "kind": st.sampled_from(["missing-name", "missing-version", "missing-relative-namesake", "missing-qualified-namesake", "self", "wrong-case", "cycle", "cycle", "duplicate-in-second-root", "self-with-twin", "cycle-with-twin"]),
             "carrier": st.integers(0, 30),
             "other": st.integers(0, 30),
         }
